@@ -15,6 +15,12 @@ Independent oracle: a first-principles numpy "shadow" (raw matrix + the LAST
 path-loss / filter arguments, plain slicing, per-link sums) checked against
 every value the real object returns, on the exact stream and on a float stream
 that uses the real random generator.
+
+Developer knob (not used by any registered command): VERIF_C08_CFG=orig runs
+the correspondence against the model of the design-round code (`Cfg.orig`,
+the one the negative-witness theorems are about) with a generator restricted
+to the histories that code has a defined behaviour for; on the unrepaired
+source that correspondence is exact while the oracles report the defects.
 """
 import contextlib
 import json
@@ -36,18 +42,28 @@ CLAIM = {
     'text': 'For every finite history of randomize / init_from_channel_matrix / set_pathloss / noise_var / '
             'set_post_filter / reads / corrupt_data on the plain and the external-interference channel, the '
             'model of the (repaired) code keeps every lazily cached view equal to its recomputation from the raw '
-            'matrix and the CURRENT path loss and filters (kernel-checked induction, no bound on history length, '
-            'sizes or scalar type); hence H, big_H, get_Hkl, get_Hk, big_H_no_ext_int, H_no_ext_int agree block '
-            'by block and equal raw * sqrt(current path loss), and corrupt_data returns the split of '
-            'W^H (big_H x + last_noise). The model is tied to the source by exact comparison of all outputs on '
-            'seeded histories; negative witnesses of the three defects of the design-round code are proved on '
-            'the model of that code.',
-    'note': 'Trusted: Lean kernel, axioms {propext, Classical.choice, Quot.sound}; the correspondence harness '
-            '(generators stay inside the documented shapes: path loss K x K(+ext), filters with Nr_k rows, data '
-            'with Nt_k rows; numpy broadcasting / shape errors for ill-shaped arguments are not modelled); numpy '
-            'dot / block_diag are model functions tied by the same correspondence; sqrt, conj are uninterpreted '
-            'in the theorems (any function), exact square roots in the driver; binary64 rounding outside. '
-            'randn_c_RS is replaced by an integer generator in the exact stream (the float stream uses the real one).',
+            'matrix and the CURRENT path loss and filters (kernel-checked induction: no bound on history length, '
+            'number of users, antenna layout; any scalar type, any sqrt/conj). Hence every read returns the '
+            'current view; for well-shaped arguments get_Hkl / H[k,l] is exactly the (k,l) sub-block of big_H and '
+            'equals the raw block times sqrt(current pathloss[k,l]), get_Hk is the k-th row block, the ExtInt-only '
+            'views are the user columns; corrupt_data returns the split by Nr of W^H (big_H vstack(x) + noise) '
+            'with last_noise = that noise. The model\'s dot / conjugate-transpose product / sum are proved equal to '
+            'Mathlib\'s matrix operations, block_diag is proved block diagonal, and receiver k\'s rows of big_H vstack(x) '
+            'are proved to be the sum over the transmitters l of the rows of get_Hkl(k,l) times x_l. The model is tied to the source '
+            'by exact comparison of all outputs on seeded histories; negative witnesses of the three defects of '
+            'the design-round code (now fixed) are proved on the model of that code.',
+    'note': 'Trusted: Lean kernel, axioms {propext, Classical.choice, Quot.sound}; the hand model and its exact '
+            'correspondence (generators stay inside the documented shapes: path loss K x K(+ K x extK), filters '
+            'with Nr_k rows, data with Nt_k rows, >=1 interference source, antenna counts >= 1; numpy '
+            'broadcasting / shape errors for ill-shaped arguments and the half-updated state they leave behind '
+            'are not modelled); _from_small_matrix_to_big_matrix is modelled structurally (repeat each entry over '
+            'its block), not as the loop over a ones matrix; sqrt / conj are uninterpreted in the theorems and '
+            'exact in the driver; binary64 rounding outside. randn_c_RS is replaced by an integer generator in '
+            'the exact stream (the float-stream oracles use the real one); the random matrices and the noise '
+            'are parameters of the model. Views-agree theorems need the shape guard `Valid`; cache coherence and '
+            'the transmission clause hold for every history; the per-link decomposition (received rows = sum over '
+            'transmitters of block row times data) additionally needs the additive monoid laws and a rectangular '
+            'channel matrix.',
 }
 
 PL_VALUES = [Fraction(1), Fraction(1, 4), Fraction(1, 16), Fraction(1, 64), Fraction(4), Fraction(9, 16),
@@ -221,7 +237,7 @@ class Gen:
     def op_setpl(self):
         rng = self.rng
         if rng.chance(0.2):
-            self.ops.append({'op': 'setpl', 'p': None, 'pe': None})
+            self.ops.append({'op': 'setpl', 'p': None, 'pe': None, 'noarg': rng.chance(0.5)})
             self.pl_set = False
             return
         K, E = self.K, len(self.ntE)
@@ -543,7 +559,8 @@ def oracle_history(case):
     recs = run_impl(case)
     sh = Shadow(ext)
     out = []
-    last_mut = 'new'
+    trig_h = 'new'        # latest change of the channel / path loss before a read: 'relayout' | 'setpl'
+    trig_c = 'new'        # same, also counting set_post_filter (for corrupt_data)
     read_since = {}       # view -> it was read since the last mutation of the channel/path loss
     cached = set()        # views read at some point before the last mutation
     for i, (op, rec) in enumerate(zip(case['ops'], recs)):
@@ -554,12 +571,11 @@ def oracle_history(case):
         exp_exc = op.get('expect')
         if rec['exc'] != exp_exc:
             if rec['exc']:
-                out.append((i, call, 'exception:%s:%s:after-%s' % (rec['exc'], cls_tag, last_mut),
+                out.append((i, call, 'exception:%s:%s:%s' % (rec['exc'], cls_tag,
+                                                             'pathloss' if sh.pl is not None else 'no-pathloss'),
                             rec.get('msg', '')))
             else:
                 out.append((i, call, 'no-exception:%s:%s' % (exp_exc, cls_tag), 'expected ' + exp_exc))
-            if kind in MUTATORS:
-                last_mut = kind
             continue
         if exp_exc:
             continue
@@ -582,10 +598,12 @@ def oracle_history(case):
         elif kind == 'setw':
             sh.W = None if op['w'] is None else [unj(w) for w in op['w']]
         if kind in MUTATORS:
-            last_mut = kind
             if kind in ('init', 'rand', 'setpl'):
+                trig_h = trig_c = 'relayout' if kind in ('init', 'rand') else 'setpl'
                 cached |= {v for v, r in read_since.items() if r}
                 read_since = {}
+            elif kind == 'setw':
+                trig_c = 'setw'
             continue
         # ---- reads
         got = rec['out']
@@ -628,14 +646,14 @@ def oracle_history(case):
                         if bad is None and not same(got[k], want[k], exact):
                             bad = 'receiver %d differs from W^H(sum_l sqrt(pl) H_kl x_l + last_noise)' % k
         if bad is not None:
-            view = kind
-            how = 'cached' if (view in cached or (kind in ('Hk', 'bigHne', 'Hkne', 'corrupt') and 'bigH' in cached)
-                               or (kind == 'Hkl' and 'H' in cached)) else 'fresh'
-            out.append((i, call, 'wrong:%s:after-%s:%s' % (cls_tag, last_mut, how), bad))
+            how = 'cached' if (kind in cached or (kind in ('Hk', 'bigHne', 'Hkne', 'corrupt') and 'bigH' in cached)
+                               or (kind in ('Hkl', 'Hne') and 'H' in cached)) else 'first-read'
+            out.append((i, call, 'wrong:%s:after-%s' % (cls_tag, trig_c if kind == 'corrupt' else trig_h),
+                        bad + ' (%s)' % ('the view had been read before the last change' if how == 'cached' else 'first read of the view')))
         read_since[kind] = True
         if kind in ('Hk', 'bigHne', 'Hkne', 'corrupt'):
             read_since['bigH'] = True
-        if kind == 'Hkl':
+        if kind in ('Hkl', 'Hne'):
             read_since['H'] = True
     return out
 
@@ -659,10 +677,57 @@ def replay(ctx, rep):
     return ORACLES[rep['call']](rep['case']) is not None
 
 
+def well_shaped(case):
+    """the arguments of every operation have the documented shapes for the layout at that point
+    (the python twin of `OpOK`, plus data / filter shapes and index ranges)"""
+    ext = case['cls'] == 'ext'
+    ops = case['ops']
+    if not ops or ops[0]['op'] not in ('init', 'rand') or ops[0].get('expect'):
+        return False
+    K, nr, nt, ntE, w_rows = 0, [], [], [], None
+    for j, op in enumerate(ops):
+        k = op['op']
+        if k in ('init', 'rand'):
+            if op.get('expect'):
+                # the ExtInt override stores _extIntK before the check: the layout must be re-established at once
+                if ext and not (j + 1 < len(ops) and ops[j + 1]['op'] in ('init', 'rand')
+                                and not ops[j + 1].get('expect')):
+                    return False
+                continue
+            if len(op['nr']) != op['K'] or len(op['nt']) != op['K'] or (ext and not op['ntE']) \
+                    or (not ext and op['ntE']) or min(op['nr'] + op['nt'] + op['ntE'] + [1]) < 1 or op['K'] < 1:
+                return False
+            if k == 'init' and (len(op['M']) != sum(op['nr']) or
+                                any(len(r) != sum(op['nt']) + sum(op['ntE']) for r in op['M'])):
+                return False
+            K, nr, nt, ntE = op['K'], op['nr'], op['nt'], op['ntE']
+        elif k == 'setpl' and op['p'] is not None:
+            if len(op['p']) != K or any(len(r) != K for r in op['p']):
+                return False
+            if ext and (len(op['pe']) != K or any(len(r) != len(ntE) for r in op['pe'])):
+                return False
+        elif k == 'setw':
+            w_rows = None if op['w'] is None else [len(w) for w in op['w']]
+        elif k == 'corrupt':
+            if w_rows is not None and w_rows != list(nr):
+                return False
+            if [len(m) for m in op['x']] != list(nt) or [len(m) for m in op['xe']] != list(ntE):
+                return False
+        elif k == 'Hkl' and not op.get('expect') and not (op['k'] < K and op['l'] < K + len(ntE)):
+            return False
+        elif k in ('Hk', 'Hkne') and not op.get('expect') and not op['k'] < K:
+            return False
+        elif k in ('Hkl', 'Hk', 'Hkne') and op.get('expect') and op['k'] < K:
+            return False
+    return True
+
+
 def minimise(case, call, cls):
-    """greedy shrinking that keeps the same (call, class) violation"""
+    """greedy shrinking that keeps the history well-shaped and the same (call, class) violation"""
     def fails(ops):
         c = dict(case, ops=ops)
+        if not well_shaped(c):
+            return False
         try:
             return any(v[1] == call and v[2] == cls for v in oracle_history(c))
         except core.Infra:
@@ -686,6 +751,8 @@ def minimise(case, call, cls):
 
 
 def run_oracle(ctx, case, key):
+    if not well_shaped(case):
+        raise core.Infra('generator produced an ill-shaped history: %s' % json.dumps(case)[:400])
     viol = oracle_history(case)
     ctx.count(('oracle', key), True, n=len(case['ops']))
     seen = set()
@@ -727,6 +794,8 @@ def correspond(ctx, cases, tag):
     drv = core.Driver(DRIVER)
     batch = []
     for case in cases:
+        if not well_shaped(case):
+            raise core.Infra('generator produced an ill-shaped history: %s' % json.dumps(case)[:400])
         recs = run_impl(case)
         batch.append((case, recs, model_line(case, recs)))
     replies = []
@@ -818,7 +887,8 @@ def enum_alphabet(ext):
     A = _m([[1 + 1j, 2, -1j, 3, 1], [2j, -2, 1, 1 - 1j, 2], [3, 1j, 1, -1, -2j]])
     A2 = _m([[2, 1, 1j, -3, 1], [1j, 2, -1, 1 + 1j, 0], [1, 1j, -1, 2, 2j]])
     if ext:
-        i1 = {'op': 'init', 'M': A, 'nr': [1, 2], 'nt': [2, 1], 'K': 2, 'ntE': [2], 'ints': False, 'nte_int': False}
+        i1 = {'op': 'init', 'M': A, 'nr': [1, 2], 'nt': [2, 1], 'K': 2, 'ntE': [1, 1], 'ints': False,
+              'nte_int': False}
         i2 = {'op': 'init', 'M': A2, 'nr': [2, 1], 'nt': [1, 2], 'K': 2, 'ntE': [1, 1], 'ints': False,
               'nte_int': False}
         p1 = {'op': 'setpl', 'p': [['1', '1/4'], ['1/16', '4']], 'pe': [['1/64', '1/4'], ['1', '1/16']]}
@@ -838,10 +908,13 @@ def enum_alphabet(ext):
     return [i1, i2, p1, p2, pn] + reads + [{'op': 'corrupt'}]
 
 
-def enum_histories(ext, depth):
-    """every sequence of `depth` letters after an initial init (corrupt data fitted to the layout)"""
+def enum_histories(ext, depth, reduced=False):
+    """every sequence of <= `depth` letters after an initial init (corrupt data fitted to the layout);
+    `reduced`: 8-letter alphabet (both layouts, three path-loss settings, big_H, H, corrupt)"""
     alpha = enum_alphabet(ext)
     first = alpha[0]
+    if reduced:
+        alpha = alpha[:7] + alpha[-1:]
 
     def fit(seq):
         ops, lay = [], None
@@ -900,8 +973,12 @@ def check(ctx):
                 hs = [{'cls': 'ext' if ext else 'plain', 'stream': 'exact', 'ops': ops}
                       for ops in enum_histories(ext, 4)]
                 correspond(ctx, hs, 'enum-%s' % ('ext' if ext else 'plain'))
+                h5 = [{'cls': 'ext' if ext else 'plain', 'stream': 'exact', 'ops': ops}
+                      for ops in enum_histories(ext, 5, reduced=True) if len(ops) == 6]
+                correspond(ctx, h5, 'enum5-%s' % ('ext' if ext else 'plain'))
                 ctx.extra.setdefault('small_scope', {})['ext' if ext else 'plain'] = \
-                    'all %d histories init + <=4 letters of an 11/12-letter alphabet' % len(hs)
+                    ('all %d histories init + <=4 letters of the %d-letter alphabet; all %d histories init + 5 '
+                     'letters of the 8-letter alphabet' % (len(hs), len(enum_alphabet(ext)), len(h5)))
     except core.Infra as e:
         if not ctx.broken:
             raise
